@@ -164,6 +164,15 @@ func init() {
 					}
 					fallthrough
 				default:
+					if len(assigns) > 0 && rng.Intn(8) == 0 {
+						// two trial parameters consuming the same assignment: the count of consuming parameters exceeds the number
+						// of assignments (an error unless an unconsumed assignment happens to make the numbers meet)
+						a := assigns[rng.Intn(len(assigns))]
+						ref, rtok, val = a.Name, "assign "+hx(a.Name), a.Value
+						expectErr = true
+						tags = append(tags, "assignment-consumed-twice")
+						break
+					}
 					ref = fmt.Sprintf("hp%d", j)
 					rtok = "assign " + hx(ref)
 					val = pick(rng, vals)
